@@ -78,6 +78,10 @@ FAULTS = [
     ('shadow_register', 'x5 = 3', None, None),
     ('const_number', '12 = 3', None, None),
     ('garbage', 'frobnicate x1, x2', None, None),
+    # the same pseudo-instruction text twice: the first is fine, the second is out of reach
+    ('dup_beqz_far', 'DUP:beqz x8, main', None, None),
+    ('dup_bgt_far', 'DUP:bgt x5, x6, main', None, None),
+    ('dup_j_odd', 'DUPODD:j main', None, None),
 ]
 FAULT_BY_ID = {f[0]: f for f in FAULTS}
 
@@ -87,6 +91,17 @@ DATA_HEADS = ('db', 'dh', 'dw', 'dd', 'pack', 'bytes', 'shorts', 'ints', 'longs'
 
 def build(fault_line, pos, where):
     """returns (files, main argument, expected file, expected line number)"""
+    if fault_line.startswith(('DUP:', 'DUPODD:')):
+        ins = fault_line.split(':', 1)[1]
+        gap = ['include_bytes big.bin'] if fault_line.startswith('DUP:') else ['db 1']
+        lines = BASE[:2] + [ins] + BASE[2:] + gap + [ins, 'addi x0, x0, 0']
+        big = b'\x00' * 5000
+        if where in ('included', 'after-include', 'file'):
+            inc = ['# part', 'sub:', 'addi x7, x7, 1'] + gap + [ins]
+            main = BASE[:2] + [ins] + BASE[2:] + ['include inc/part.asm']
+            return ({'/proj/src/main.asm': '\n'.join(main), '/proj/src/inc/part.asm': '\n'.join(inc), '/proj/src/inc/big.bin': big},
+                    '/proj/src/main.asm', '/proj/src/inc/part.asm', len(inc))
+        return {'/proj/run/big.bin': big}, '\n'.join(lines), '<string>', len(lines) - 1
     if fault_line.split()[0] in DATA_HEADS:
         # a data item of odd size in front of code would misalign (and so break) the following
         # jump on its own: keep data faults next to the data lines / before the align
@@ -141,7 +156,7 @@ def error_task(fid, pos, where, compress):
     def fn(p):
         v = vfsmod.VFS('/proj/run')
         for pth, text in files.items():
-            v.add_text(pth, text)
+            (v.add_bytes if isinstance(text, bytes) else v.add_text)(pth, text)
         v.add_dir('/proj/run')
         v.install(asm)
         consts, markers = {}, {}
@@ -213,11 +228,15 @@ def _real(real, files, main, inp, notes, compress):
         os.makedirs(root + '/proj/run', exist_ok=True)
         for pth, text in files.items():
             os.makedirs(os.path.dirname(root + pth), exist_ok=True)
+            if isinstance(text, bytes):
+                with open(root + pth, 'wb') as f:
+                    f.write(text)
+                continue
             with open(root + pth, 'w') as f:
                 f.write(sub(text))
         os.chdir(root + '/proj/run')
         consts = {k: inp[k] for k in notes['constants']}
-        arg = root + main if files else sub(main)
+        arg = root + main if (files and main.startswith('/')) else sub(main)
         try:
             real.assemble(arg, constants=consts, labels={}, compress=compress, include_dirs=[])
             return ('ok',)
